@@ -619,4 +619,26 @@ example : BitsFromStack { mask := SpanStrong, spanStack := [star] } := by
   · left; simp
   all_goals (revert hm; decide)
 
+/-! ### Cost of deep block quotes (round E, review C17-5)
+
+`C17_terminates` counts calls of the split function (at most `2·|doc| + 2`).  Each call - and
+each `Style()`/`Quote()` - walks the chain of nested quote decoders, one per `>` of the line.
+Full statement (not proved): for every `n`, `levelVisits (quoteDoc n) = (n² + 5n + 2) / 2`
+(the markers at depths 1..n, the text at depth n, one more visit each).  Proved: the instances
+below.  The real decoder's events on the same documents are compared with the model's on every
+run (class `quote-cost`) and the sum is demanded of it; what it means in seconds is the known
+finding `terminates/quote-depth-cost`. -/
+
+/-- **the work grows with the square of the quote depth** (instances `n` = 1 … 64): a line of
+`n` block quote markers is decoded into `n + 1` tokens whose level visits sum to
+`(n² + 5n + 2) / 2` -/
+theorem C17_quote_depth_cost_partial :
+    ([1, 2, 3, 4, 8, 16, 32, 64].map fun n => levelVisits (quoteDoc n)) =
+      [1, 2, 3, 4, 8, 16, 32, 64].map fun n => some ((n * n + 5 * n + 2) / 2) := by decide +kernel
+
+/-- … while the number of tokens (and of split calls) is linear -/
+theorem C17_quote_depth_tokens :
+    ([1, 2, 3, 4, 8, 16, 32, 64].map fun n => (decode none ⟨[], true⟩ (quoteDoc n)).1.map (·.length)) =
+      [1, 2, 3, 4, 8, 16, 32, 64].map fun n => some (n + 1) := by decide +kernel
+
 end XmppModel.Props.C17
